@@ -35,6 +35,7 @@ PROBES = [(0.0, 0.0), (6.0, 6.0)]
 PROBE_MATCH = {"pts": [{0}, {2}], "lines": [{2}, {0}], "polys": [{3}, {4}]}
 
 
+THOROUGH = [False]
 PTS_NAME = ["pts"]          # name of the first geometry column in the current exploration ("pts" or "geometry")
 
 
@@ -102,6 +103,8 @@ def ops_for(obj, m, depth):
             ops.append(("to_dask", k))
     else:
         ops += [("d_cx", "A"), ("d_cx", "B"), ("d_pack", 2), ("compute",), ("d_cols", tuple(reversed(m.cols)))]
+        if depth <= 1 or THOROUGH[0]:
+            ops.append(("d_concat",))
         if "val" in m.cols:
             ops.append(("d_filter", 20))
         if "val" in m.cols:
@@ -109,7 +112,7 @@ def ops_for(obj, m, depth):
         for o in g:
             if o != m.active:
                 ops.append(("d_set_geometry", o))
-        for o in g + [None]:
+        for o in (g + [None]) if (depth <= 1 or THOROUGH[0]) else [x for x in g if x != m.active][:1]:
             ops.append(("d_parquet", o))
         if depth <= 1:
             ops.append(("d_persist",))
@@ -164,6 +167,8 @@ def apply_model(m, op):
         return M("pd", m.cols, m.active, m.rows, 0, m.ordered)
     if t == "d_persist":
         return M("dd", m.cols, m.active, m.rows, m.nparts, m.ordered, tag="persisted")
+    if t == "d_concat":
+        return M("dd", m.cols, m.active, m.rows + m.rows, -4, m.ordered, tag=m.tag)
     if t == "d_parquet_bounds":
         # whole partitions are kept: the rows are a superset of those whose ACTIVE geometry meets the box
         mm = M("dd", m.cols, op[1], m.rows, -3, m.ordered)
@@ -215,6 +220,8 @@ def apply_real(obj, m, op, scratch):
         return obj.set_geometry(rn(op[1]))
     if t == "d_persist":
         return obj.persist(scheduler="synchronous")
+    if t == "d_concat":
+        return dd.concat([obj, obj])
     if t == "d_parquet_bounds":
         from spatialpandas.io import read_parquet_dask
         path = os.path.join(scratch, f"c20-{os.getpid()}-{zlib.crc32(repr((m.key(), op)).encode())}.parq")
@@ -484,6 +491,7 @@ def explore(col, active, depth, shard, nshards, scratch, pts_name="pts"):
 def run(ctx):
     scratch = ctx.scratch()
     depth = 3
+    THOROUGH[0] = ctx.thorough
     nshards = 16 if ctx.thorough else 8
     if ctx.thorough:
         depth = 4
